@@ -245,7 +245,7 @@ def check(repo, rep):
                 if cname == '_Recorder' and not flags:
                     continue            # representation of the first-rewind state not recognised (already INCONCLUSIVE above)
                 if not first_path:
-                    rep.ob('%s.rewind propagates to the wrapped source (super().rewind() / inner rewind)' % cname, bool(calls), W(rw), '%s.rewind:propagation' % cname, 'rewind calls: %s' % [show(x)[:50] for x in calls])
+                    (rob if cname == '_Recorder' else rep.ob)('%s.rewind propagates to the wrapped source (super().rewind() / inner rewind)' % cname, bool(calls), W(rw), '%s.rewind:propagation' % cname, 'rewind calls: %s' % [show(x)[:50] for x in calls])
         # fields written on the read path, or holding generator state, must be re-initialised by the class's rewind
         read_written = set()
         for mname in ('read',) + tuple(m for m in own if m not in ('__init__', 'rewind', 'read')):
